@@ -227,8 +227,7 @@ static void String_Rem(var self, var obj) {
       throw(ValueError, "String %$ not in String!", obj);
       return;
     }
-    size_t count = strlen(String_C_Str(self)) - strlen(pos) - 
-      strlen(c->c_str(obj)) + 1;
+    size_t count = strlen(pos) - strlen(c->c_str(obj)) + 1;
     memmove((char*)pos, pos + strlen(c->c_str(obj)), count);
   }
   
